@@ -1884,12 +1884,33 @@ fn ct_kill(pid: libc::pid_t) {
     }
 }
 
-/// Owns the forked children, the pipe and the SIGALRM disposition; Drop leaves nothing behind.
+/// Owns the forked children, the pipe, the SIGALRM disposition and the CPU pinning; Drop leaves nothing
+/// behind.
 struct CtChildren {
     pids: Vec<(libc::pid_t, bool)>, // (pid, already reaped)
     rfd: libc::c_int,
     wfd: libc::c_int,
     old_alarm: Option<libc::sigaction>,
+    old_affinity: Option<libc::cpu_set_t>,
+}
+
+/// Pin this process (and the children forked afterwards) to the CPU it is running on: tracer and tracee
+/// alternate strictly, and keeping them on one CPU halves the cost of a single-step. Best effort.
+fn ct_pin_to_current_cpu() -> Option<libc::cpu_set_t> {
+    // SAFETY: cpu_set_t is plain data (all-zero is valid); the calls get valid pointers and sizes.
+    unsafe {
+        let mut old: libc::cpu_set_t = std::mem::zeroed();
+        if libc::sched_getaffinity(0, std::mem::size_of::<libc::cpu_set_t>(), &mut old) != 0 {
+            return None;
+        }
+        let cpu = usize::try_from(libc::sched_getcpu()).ok()?;
+        let mut one: libc::cpu_set_t = std::mem::zeroed();
+        libc::CPU_SET(cpu, &mut one);
+        if libc::sched_setaffinity(0, std::mem::size_of::<libc::cpu_set_t>(), &one) != 0 {
+            return None;
+        }
+        Some(old)
+    }
 }
 
 impl Drop for CtChildren {
@@ -1904,6 +1925,9 @@ impl Drop for CtChildren {
         unsafe {
             if let Some(old) = &self.old_alarm {
                 libc::sigaction(libc::SIGALRM, old, std::ptr::null_mut());
+            }
+            if let Some(old) = &self.old_affinity {
+                libc::sched_setaffinity(0, std::mem::size_of::<libc::cpu_set_t>(), old);
             }
             for fd in [self.rfd, self.wfd] {
                 if fd >= 0 {
@@ -2080,7 +2104,9 @@ fn op_ct_trace(c: &Value) -> R {
         rfd: fds[0],
         wfd: fds[1],
         old_alarm: None,
+        old_affinity: None,
     };
+    kids.old_affinity = ct_pin_to_current_cpu();
     // SAFETY: fcntl on an fd we own.
     unsafe {
         let fl = libc::fcntl(kids.rfd, libc::F_GETFL);
